@@ -4,6 +4,7 @@ import JsonVerif.Model.Entry
 import JsonVerif.Lemmas.Hub
 import JsonVerif.Lemmas.Viable
 import JsonVerif.Lemmas.RunComplete
+import JsonVerif.Lemmas.SurrIn
 /-!
 # C07 — Parse errors point at the first offending character
 
@@ -152,9 +153,35 @@ theorem C07_longest_viable_prefix (cs : List Char) (p : Nat) (c : Option Char)
     rintro ⟨suffix, v, hd⟩
     exact not_viable_beyond pre b rest h suffix v (by simpa using hd)
 
+/-- **Surrogate errors blame exactly the escape(s) at fault** (last clause), for every input and
+    option record. `EscAt cs 0 s e cu` = the input contains an escape `\\uXXXX` writing the code unit
+    `cu`, and `[s, e)` is exactly its `uXXXX` part (`e = s + 5`; reported spans start at the `u`).
+    * `MissingLowSurrogate(s, e, hi)`: the span is the escape that wrote the high surrogate `hi`;
+    * `InvalidLowSurrogate(s, e, hi, cu)`: the span is the escape that wrote `cu`, and `hi` was
+      written by the escape directly before it (`[s-6, s-1)`);
+    * `InvalidUnicodeCodePoint(s, e, cu)`: the span is the escape that wrote `cu`.
+    (The fourth place where the code can raise `InvalidUnicodeCodePoint` — a combined pair that is
+    not a scalar value — is unreachable: `ofCp_pair_some`.) -/
+theorem C07_surrogate_inside (o : ParseOptions) (cs : List Char) (bad : Bool) :
+    (∀ s e hi, parseChars o cs bad = .error (.missingLow s e hi) → EscAt cs 0 s e hi) ∧
+    (∀ s e hi cu, parseChars o cs bad = .error (.invalidLow s e hi cu) →
+      EscAt cs 0 s e cu ∧ 6 ≤ s ∧ EscAt cs 0 (s - 6) (s - 1) hi) ∧
+    (∀ s e cu, parseChars o cs bad = .error (.invalidCodePoint s e cu) → EscAt cs 0 s e cu) := by
+  have key : ∀ e, parseChars o cs bad = .error e → ErrIn cs 0 e := by
+    intro e h
+    exact run_in (run_of_parseChars_err h)
+  exact ⟨fun s e hi h => key _ h, fun s e hi cu h => key _ h, fun s e cu h => key _ h⟩
+
 /-- a prefix of a viable prefix is viable -/
 theorem C07_viable_prefix_closed (a b : List Char) (h : Viable (a ++ b)) : Viable a := by
   obtain ⟨suffix, v, hd⟩ := h
   exact ⟨b ++ suffix, v, by simpa using hd⟩
+
+/-! Non-vacuity (kernel-evaluated): an unexpected-character error inside an array, and a surrogate
+    error with its span. -/
+example : parseChars ⟨false, false⟩ "[1,]".toList false = .error (.unexpected 3 (some ']')) := by
+  rw [← parseCharsF_eq]; rfl
+example : parseChars ⟨false, false⟩ "\"\\ud800x\"".toList false = .error (.missingLow 2 7 0xd800) := by
+  rw [← parseCharsF_eq]; rfl
 
 end JsonVerif.C07
